@@ -172,12 +172,10 @@ func deepAtomic(n ast.Node) bool {
 func parksUnmodelled(s ast.Stmt) string {
 	switch x := s.(type) {
 	case *ast.SelectStmt:
-		for _, c := range x.Body.List {
-			if cc, ok := c.(*ast.CommClause); ok && cc.Comm == nil {
-				return "" // has a default clause: does not park
-			}
+		if !selectParks(x) || !hasContinue(x) {
+			return "" // has a default clause (does not park), or is turned into a polling loop
 		}
-		return "select without default"
+		return "select without default whose clauses say continue"
 	case *ast.SendStmt:
 		return "channel send of a computed value"
 	case *ast.RangeStmt:
@@ -205,6 +203,34 @@ func parksUnmodelled(s ast.Stmt) string {
 		return true
 	})
 	return why
+}
+
+// selectParks: the select has no default clause (so it can park) and at least one clause.
+func selectParks(sel *ast.SelectStmt) bool {
+	n := 0
+	for _, c := range sel.Body.List {
+		if cc, ok := c.(*ast.CommClause); ok {
+			if cc.Comm == nil {
+				return false
+			}
+			n++
+		}
+	}
+	return n > 0
+}
+
+func hasContinue(n ast.Node) bool {
+	found := false
+	ast.Inspect(n, func(m ast.Node) bool {
+		if _, ok := m.(*ast.FuncLit); ok {
+			return false
+		}
+		if b, ok := m.(*ast.BranchStmt); ok && b.Tok == token.CONTINUE {
+			found = true
+		}
+		return !found
+	})
+	return found
 }
 
 // plainValue: an expression that can be evaluated again without side effects.
@@ -468,6 +494,22 @@ func Instrument(srcDir, outDir, keyDir string) (*Result, error) {
 						return
 					}
 				}
+			}
+			if sel, ok := s.(*ast.SelectStmt); ok && sel.Body != nil && selectParks(sel) && !hasContinue(sel) {
+				// a select that can park becomes a polling loop as well: every clause first ends the
+				// loop, a default clause (there was none) polls. (Not when a clause body says
+				// `continue`: that would then mean this loop instead of the caller's.)
+				loc := fmt.Sprintf("%s:%d:%s:select", base, line, fname)
+				add(s.Pos(), "for verifWait := true; verifWait; { ")
+				for _, c := range sel.Body.List {
+					if cc, ok := c.(*ast.CommClause); ok {
+						add(cc.Colon+1, " verifWait = false; ")
+					}
+				}
+				add(sel.Body.Rbrace, fmt.Sprintf(" default: verifPoll(%d); ", site("spin:"+loc, 0, true)))
+				add(s.End(), " }")
+				res.NChan++
+				return
 			}
 			if ss, ok := s.(*ast.SendStmt); ok && plainValue(ss.Value) && plainValue(ss.Chan) {
 				loc := fmt.Sprintf("%s:%d:%s:chansend", base, line, fname)
